@@ -83,6 +83,7 @@ def run(ctx):
     vhb = vh_bin()
     vh = VH(vhb, locklog=os.path.join(ctx.scratch_root, "lock_vh.log"))
     try:
+        pinned(ctx, vh)
         for i in range(n_ws):
             root = ctx.scratch(f"ws{i}")
             ws = gen.gen_workspace(root, ctx.rng, allow_multiline=False)
@@ -189,3 +190,25 @@ def judge_cols_only(ctx, ws, model, order, f, u, uu, actual_at):
                    "expected": sorted(exp) if exp else None, "actual": act, "level": "lsp"},
                   {"expected_kind": res_kind(res), "column": col, "usage_kind": u["kind"], "spec": ws.spec},
                   files=ws.files)
+
+
+def pinned(ctx, vh):
+    from ..witness import WITNESS, ws_from_witness
+    w = WITNESS[KF_IMPORT]
+    ws = ws_from_witness(ctx, w)
+    model = ws.model()
+    db = vh.new_db()
+    vh.call(op="batch", cmds=[{"op": "analyze_fresh", "db": db, "path": ws.abs(r), "text": ws.files[r]} for r in w["order"]])
+    order = def_index(vh.call(op="raw", db=db))
+    for rel in ws.workspace_py():
+        f = ws.abs(rel)
+        m = model.models[f]
+        for u in m.usages:
+            def actual_at(col, f=f, u=u):
+                a = vh.call(op="goto", db=db, path=f, line=u["line"] - 1, char=col)
+                t = a.get("target")
+                return (t["file"], t["line"]) if t else None
+            judge_usage(ctx, ws, model, order, f, u, actual_at, "vh")
+    vh.call(op="drop_db", db=db)
+    import shutil
+    shutil.rmtree(ws.root, ignore_errors=True)
